@@ -2,10 +2,12 @@ package offsets
 
 import (
 	"bytes"
+	"errors"
 	"fmt"
 	"testing"
 
 	"github.com/blinklabs-io/gouroboros/ledger"
+	"github.com/blinklabs-io/gouroboros/ledger/byron"
 	"github.com/blinklabs-io/gouroboros/ledger/common"
 	"pgregory.net/rapid"
 
@@ -104,6 +106,7 @@ func positionsOf(rs []region, n int) map[string][]int {
 // ---- the oracle --------------------------------------------------------------------
 
 type c34Verdict struct {
+	HashErr    bool   // the rejection is a body-hash / body-proof mismatch (not a shape error)
 	Accepted   bool   // decode with body validation succeeded
 	Structural bool   // decode with SkipBodyHashValidation succeeded
 	Bound      bool   // reference commitment of the body equals the header's
@@ -115,12 +118,20 @@ type c34Verdict struct {
 // recomputes the commitment of the accepted bytes independently.
 func c34Eval(typ uint, buf []byte) (c34Verdict, error) {
 	var v c34Verdict
-	if _, err := ledger.NewBlockFromCbor(typ, buf, common.VerifyConfig{SkipBodyHashValidation: true}); err == nil {
-		v.Structural = true
-	}
-	_, err := ledger.NewBlockFromCbor(typ, buf)
+	// every call gets the bytes in the process-wide input buffer, which is
+	// overwritten as soon as the call has returned (see offsets_purity.go)
+	in := viaScratch(buf)
+	_, err := ledger.NewBlockFromCbor(typ, in)
+	clobber(in)
+	v.Structural = err == nil // accepted with validation => decodes without it
 	if err != nil {
+		in = viaScratch(buf)
+		_, serr := ledger.NewBlockFromCbor(typ, in, common.VerifyConfig{SkipBodyHashValidation: true})
+		clobber(in)
+		v.Structural = serr == nil
 		v.Err = err.Error()
+		var ve *common.ValidationError
+		v.HashErr = errors.Is(err, byron.ErrBodyProofMismatch) || (errors.As(err, &ve) && ve.Type == common.ValidationErrorTypeBodyHash)
 		return v, nil
 	}
 	v.Accepted = true
@@ -352,7 +363,6 @@ func genStructural(rt *rapid.T, typ uint, base *xcbor.Node) (family, reg, desc s
 	return "", "", "", nil
 }
 
-
 // restyleIn changes the head form of one node that lies in region reg (the data
 // model is unchanged, the bytes are not). Returns nil if no node qualifies.
 func restyleIn(rt *rapid.T, base *xcbor.Node, rs []region, reg string) (string, *xcbor.Node) {
@@ -391,6 +401,31 @@ func restyleIn(rt *rapid.T, base *xcbor.Node, rs []region, reg string) (string, 
 	return fmt.Sprintf("%s node #%d at byte %d -> %s", n.Kind, i, orig[i].Start, f), t
 }
 
+// appendInside appends a copy of the last element to one array that lies in
+// region reg (an extra trailing item inside a proof-covered list while every
+// earlier byte of the list stays identical apart from the list head).
+func appendInside(rt *rapid.T, base *xcbor.Node, rs []region, reg string) (string, *xcbor.Node) {
+	t := base.Clone()
+	orig := base.Nodes()
+	nodes := t.Nodes()
+	var cands []int
+	for i, n := range orig {
+		if n.Kind == xcbor.Array && len(n.Items) > 0 && regionAt(rs, n.Start).Name == reg {
+			cands = append(cands, i)
+		}
+	}
+	if len(cands) == 0 {
+		return "", nil
+	}
+	i := cands[rapid.IntRange(0, len(cands)-1).Draw(rt, "appendNode")]
+	n := nodes[i]
+	n.Items = append(n.Items, n.Items[len(n.Items)-1].Clone())
+	if !n.Indef {
+		n.Width = 0
+	}
+	return fmt.Sprintf("array node #%d at byte %d: last element repeated (%d -> %d elements)", i, orig[i].Start, len(n.Items)-1, len(n.Items)), t
+}
+
 type c34Base struct {
 	Name  string
 	Type  uint
@@ -404,14 +439,27 @@ type c34Base struct {
 func newC34Base(name string, typ uint, b []byte) *c34Base {
 	root := mustParse(b)
 	rs := regionsOf(typ, root)
-	pos := positionsOf(rs, len(b))
+	// paint the owner of every byte (earlier regions win), in O(total region size)
+	owner := make([]int32, len(b))
+	for i := range owner {
+		owner[i] = -1
+	}
+	for ri := len(rs) - 1; ri >= 0; ri-- {
+		for p := max(rs[ri].S, 0); p < rs[ri].E && p < len(b); p++ {
+			owner[p] = int32(ri)
+		}
+	}
+	pos := map[string][]int{}
 	var names []string
-	seen := map[string]bool{}
-	for p := 0; p < len(b); p++ {
-		if n := regionAt(rs, p).Name; !seen[n] {
-			seen[n] = true
+	for p, ri := range owner {
+		n := "trailing"
+		if ri >= 0 {
+			n = rs[ri].Name
+		}
+		if _, ok := pos[n]; !ok {
 			names = append(names, n)
 		}
+		pos[n] = append(pos[n], p)
 	}
 	return &c34Base{name, typ, b, root, rs, pos, names}
 }
@@ -486,6 +534,197 @@ func TestC34(t *testing.T) {
 			map[string]any{"base": b.Name, "type": b.Type, "family": m.Family, "region": m.Region, "mutation": m.Desc, "block_hex": evi.Hex(m.Bytes), "block_len": len(m.Bytes)})
 	}
 
+	// genuine evaluates a block whose header commits to exactly its body (a real
+	// block, or a generated one whose commitment the harness computed): it must
+	// be accepted now and whenever it is decoded again, whatever was decoded in
+	// between. A rejection is reported only when it is a body-hash / body-proof
+	// mismatch of bytes that decode structurally and that the reference finds
+	// bound (so a shape the decoder refuses for other reasons is never flagged).
+	genuine := func(fail func(key, what string, cs any) bool, b *c34Base, when string) bool {
+		v, err := c34Eval(b.Type, b.Bytes)
+		rec.Eval()
+		if err != nil {
+			fail("C34:harness:"+err.Error(), err.Error(), map[string]any{"base": b.Name})
+			return false
+		}
+		if v.Accepted {
+			if !v.Bound {
+				fail("C34:harness:genuine-block-not-bound", "harness: a block the harness committed is not bound by its own reference: "+v.Why, map[string]any{"base": b.Name})
+			}
+			return true
+		}
+		if v.Structural && v.HashErr {
+			root, _, perr := xcbor.Parse(b.Bytes)
+			if perr == nil {
+				if ok, _ := headerMatches(b.Type, root, bodyCommitmentOf(b.Type, root, b.Bytes)); ok {
+					fail(fmt.Sprintf("C34:%s:type%d:bound-block-rejected:%s", layoutOf(b.Type), b.Type, when),
+						fmt.Sprintf("%s block (type %d, %s) whose body is exactly what its header commits to is rejected with a body-hash error (%s): %s", layoutOf(b.Type), b.Type, b.Name, when, v.Err),
+						map[string]any{"base": b.Name, "type": b.Type, "when": when, "block_hex": evi.Hex(b.Bytes), "block_len": len(b.Bytes)})
+				}
+			}
+		}
+		return false
+	}
+
+	// ---- explicit histories on one shared input buffer -----------------------------------
+	// per real block G: T1 = same header, one hashed container re-encoded (body
+	// bytes differ), T2 = same body, one bit of the header's commitment flipped,
+	// M = truncated. Orders: T1 G T1 T2 G M G per block, then all G forwards, all
+	// T1, all G backwards (cross-era). G must be accepted and T1/T2/M rejected at
+	// every position.
+	{
+		viol := func(key, what string, cs any) bool { return rec.Violation(key, what, cs) }
+		type trio struct {
+			g         *c34Base
+			t1, t2, m *mutation
+		}
+		var trios []trio
+		for _, b := range bases {
+			tr := trio{g: b}
+			// T1: first restylable array/map node in a committed region
+			nodes := b.Tree.Nodes()
+			for i, n := range nodes {
+				if (n.Kind == xcbor.Array || n.Kind == xcbor.Map) && regionAt(b.Regs, n.Start).Committed && canApply(n, xcbor.FormW2) {
+					c := b.Tree.Clone()
+					applyForm(c.Nodes()[i], xcbor.FormW2, 0)
+					tr.t1 = &mutation{"history-same-header-other-body", regionAt(b.Regs, n.Start).Name, fmt.Sprintf("%s node #%d -> w2", n.Kind, i), c.Encode()}
+					break
+				}
+			}
+			if ps := b.Pos["header-commitment"]; len(ps) > 0 {
+				mb := append([]byte(nil), b.Bytes...)
+				mb[ps[len(ps)-1]] ^= 0x01
+				tr.t2 = &mutation{"history-same-body-other-header", "header-commitment", fmt.Sprintf("byte %d ^= 0x01", ps[len(ps)-1]), mb}
+			}
+			tr.m = &mutation{"history-truncated", "block-framing", "last third cut off", append([]byte(nil), b.Bytes[:len(b.Bytes)*2/3]...)}
+			trios = append(trios, tr)
+		}
+		step := func(tr trio, what byte, pos string) {
+			switch what {
+			case 'G':
+				if !genuine(viol, tr.g, pos) {
+					rec.Violation(fmt.Sprintf("C34:%s:type%d:history:real-block-rejected", layoutOf(tr.g.Type), tr.g.Type),
+						fmt.Sprintf("real block %s is rejected %s", tr.g.Name, pos), map[string]any{"block": tr.g.Name, "when": pos})
+				}
+			case '1':
+				if tr.t1 != nil {
+					judge(viol, tr.g, *tr.t1)
+				}
+			case '2':
+				if tr.t2 != nil {
+					judge(viol, tr.g, *tr.t2)
+				}
+			case 'M':
+				judge(viol, tr.g, *tr.m)
+			}
+		}
+		for _, tr := range trios {
+			if tr.g.Type == fixtures.TypeByronEbb && !rec.Thorough() {
+				for _, w := range "1G2G" { // the 650 KB block: a shorter sequence
+					step(tr, byte(w), "after a tampered sibling")
+				}
+				continue
+			}
+			for _, w := range "1G12GMG" {
+				step(tr, byte(w), "after tampered / malformed siblings")
+			}
+		}
+		small := trios
+		if !rec.Thorough() {
+			small = nil
+			for _, tr := range trios {
+				if tr.g.Type != fixtures.TypeByronEbb {
+					small = append(small, tr)
+				}
+			}
+		}
+		for _, tr := range small {
+			step(tr, 'G', "in a run of genuine blocks of all eras")
+		}
+		for _, tr := range small {
+			step(tr, '1', "")
+		}
+		for i := len(small) - 1; i >= 0; i-- {
+			step(small[i], 'G', "after the tampered siblings of all eras")
+		}
+	}
+
+	// ---- special sizes: components of 255/256/65535/65536 bytes, >= 64 KiB by repetition,
+	// 255/256 transactions: the genuine block must be accepted, and a flip at the first
+	// byte, the last byte and at the 255/256/65535/65536-byte marks of every hashed region
+	// must be rejected
+	{
+		viol := func(key, what string, cs any) bool { return rec.Violation(key, what, cs) }
+		var special []*c34Base
+		add := func(name string, tp *template, tree *xcbor.Node) {
+			if tree == nil {
+				return
+			}
+			if err := recommit(tp.Type, tree); err != nil {
+				return
+			}
+			special = append(special, newC34Base(name, tp.Type, tree.Encode()))
+		}
+		for _, name := range []string{"byron_main", "conway", "dijkstra"} {
+			tp := templateByName(name)
+			for _, which := range []string{"body", "witness", "aux"} {
+				for _, size := range []int{255, 256, 65535, 65536} {
+					add(fmt.Sprintf("%s-gen-%s-of-%d-bytes", name, which, size), tp, sizedBlock(tp, which, size))
+				}
+			}
+		}
+		for _, name := range []string{"shelley", "mary"} {
+			tp := templateByName(name)
+			for _, which := range []string{"body", "witness"} {
+				add(fmt.Sprintf("%s-gen-%s-over-64KiB", name, which), tp, hugeBlock(tp, which))
+			}
+		}
+		for _, name := range []string{"byron_main", "mary", "dijkstra"} {
+			tp := templateByName(name)
+			for _, n := range []int{255, 256} {
+				add(fmt.Sprintf("%s-gen-%dtx", name, n), tp, bigBlock(tp, n, 0, 0, 0))
+			}
+		}
+		nSpecial := 0
+		for _, b := range special {
+			if !genuine(viol, b, "special-size block") {
+				rec.Class("special_base_not_accepted")
+				continue
+			}
+			rec.Class("special_base_accepted")
+			// hashed regions: the first two, the last two and the largest (a Byron
+			// block has two per transaction)
+			var com []region
+			for _, r := range b.Regs {
+				if r.Committed {
+					com = append(com, r)
+				}
+			}
+			pick := com
+			if len(com) > 5 {
+				big := com[0]
+				for _, r := range com {
+					if r.E-r.S > big.E-big.S {
+						big = r
+					}
+				}
+				pick = []region{com[0], com[1], big, com[len(com)-2], com[len(com)-1]}
+			}
+			for _, r := range pick {
+				for _, p := range []int{r.S, r.S + 255, r.S + 256, r.S + 65535, r.S + 65536, r.E - 1} {
+					if p < r.S || p >= r.E || regionAt(b.Regs, p).Name != r.Name {
+						continue
+					}
+					mb := append([]byte(nil), b.Bytes...)
+					mb[p] ^= 0x01
+					judge(viol, b, mutation{"byte-flip-at-size-mark", r.Name, fmt.Sprintf("byte %d (region offset %d of %d) ^= 0x01", p, p-r.S, r.E-r.S), mb})
+					nSpecial++
+				}
+			}
+		}
+		rec.SetExtra("n_special_size_flips", nSpecial)
+	}
+
 	// ---- header of one real block on the body of another real block of the same type ----
 	for _, a := range bases {
 		for _, b := range bases {
@@ -541,7 +780,8 @@ func TestC34(t *testing.T) {
 		} else {
 			tp := tps[rapid.IntRange(0, len(tps)-1).Draw(rt, "template")]
 			mk := func() *c34Base {
-				tree, info := genBlock(rt, tp, false)
+				big := rapid.IntRange(0, 39).Draw(rt, "bigBlock") == 0 // 254..258 transactions now and then
+				tree, info := genBlock(rt, tp, big)
 				if err := recommit(tp.Type, tree); err != nil {
 					rt.Fatalf("harness: %v", err)
 				}
@@ -549,8 +789,7 @@ func TestC34(t *testing.T) {
 			}
 			b = mk()
 			rec.Class("base_generated")
-			v, err := c34Eval(b.Type, b.Bytes)
-			if err != nil || !v.Accepted {
+			if !genuine(func(key, what string, cs any) bool { return rec.Fail(rt, key, what, cs) }, b, "first decode of a generated block") {
 				rec.Class("generated_base_not_accepted")
 				return
 			}
@@ -561,40 +800,69 @@ func TestC34(t *testing.T) {
 		lay := layoutOf(b.Type)
 		rec.Class("layout_" + lay)
 		fail := func(key, what string, cs any) bool { return rec.Fail(rt, key, what, cs) }
-		if other != nil {
-			// header of b, everything else of other
-			t1, t2 := b.Tree.Clone(), other.Tree.Clone()
-			t2.Items[0] = t1.Items[0]
-			judge(fail, b, mutation{"transplant", "whole-body", "header of one generated block, body of another (" + other.Name + ")", t2.Encode()})
-			return
-		}
-		switch rapid.IntRange(0, 9).Draw(rt, "family") {
-		case 0, 1, 2, 3: // byte flip in a drawn region
-			reg := b.Names[rapid.IntRange(0, len(b.Names)-1).Draw(rt, "region")]
-			ps := b.Pos[reg]
-			p := ps[rapid.IntRange(0, len(ps)-1).Draw(rt, "pos")]
-			mk := byte(rapid.IntRange(1, 255).Draw(rt, "mask"))
-			mb := append([]byte(nil), b.Bytes...)
-			mb[p] ^= mk
-			if rapid.IntRange(0, 19).Draw(rt, "alsoTrailing") == 0 {
-				mb = append(mb, genBytes(rt, 1, 4, "trailing")...)
-			}
-			judge(fail, b, mutation{"byte-flip", reg, fmt.Sprintf("byte %d ^= %#02x (block now %d bytes)", p, mk, len(mb)), mb})
-		case 4, 5, 6: // head form of a node in a drawn region
-			reg := b.Names[rapid.IntRange(0, len(b.Names)-1).Draw(rt, "region")]
-			d, tree := restyleIn(rt, b.Tree, b.Regs, reg)
-			if tree == nil {
-				rec.Class("no_restylable_node_in_region")
+		// history: the genuine base is decoded again after its mutant (G T G); it
+		// was accepted before, so it must be accepted again
+		again := func() {
+			if b.Type == fixtures.TypeByronEbb {
 				return
 			}
-			judge(fail, b, mutation{"restyle", reg, d, tree.Encode()})
-		default:
-			fam, reg, d, tree := genStructural(rt, b.Type, b.Tree)
-			if tree == nil {
-				rec.Class("no_structural_edit_applicable")
+			if !genuine(fail, b, "again after its mutant") {
+				rec.Fail(rt, fmt.Sprintf("C34:%s:type%d:history:verdict-changed", lay, b.Type),
+					fmt.Sprintf("%s block %s was accepted, then a mutant of it was decoded, now the same bytes are rejected", lay, b.Name),
+					map[string]any{"base": b.Name, "type": b.Type, "block_hex": evi.Hex(b.Bytes)})
+			}
+		}
+		func() {
+			if other != nil {
+				// header of b, everything else of other
+				t1, t2 := b.Tree.Clone(), other.Tree.Clone()
+				t2.Items[0] = t1.Items[0]
+				judge(fail, b, mutation{"transplant", "whole-body", "header of one generated block, body of another (" + other.Name + ")", t2.Encode()})
 				return
 			}
-			judge(fail, b, mutation{fam, reg, d, tree.Encode()})
-		}
+			switch rapid.IntRange(0, 9).Draw(rt, "family") {
+			case 0, 1, 2, 3: // byte flip in a drawn region
+				reg := b.Names[rapid.IntRange(0, len(b.Names)-1).Draw(rt, "region")]
+				ps := b.Pos[reg]
+				p := ps[rapid.IntRange(0, len(ps)-1).Draw(rt, "pos")]
+				if rapid.IntRange(0, 3).Draw(rt, "edgePos") == 0 { // first / last bytes and size marks of the region
+					marks := []int{0, 1, 23, 24, 255, 256, 65535, 65536, len(ps) - 2, len(ps) - 1}
+					if k := marks[rapid.IntRange(0, len(marks)-1).Draw(rt, "mark")]; k >= 0 && k < len(ps) {
+						p = ps[k]
+					}
+				}
+				mk := byte(rapid.IntRange(1, 255).Draw(rt, "mask"))
+				mb := append([]byte(nil), b.Bytes...)
+				mb[p] ^= mk
+				if rapid.IntRange(0, 19).Draw(rt, "alsoTrailing") == 0 {
+					mb = append(mb, genBytes(rt, 1, 4, "trailing")...)
+				}
+				judge(fail, b, mutation{"byte-flip", reg, fmt.Sprintf("byte %d ^= %#02x (block now %d bytes)", p, mk, len(mb)), mb})
+			case 4: // an extra trailing element inside a list of a drawn region
+				reg := b.Names[rapid.IntRange(0, len(b.Names)-1).Draw(rt, "region")]
+				d, tree := appendInside(rt, b.Tree, b.Regs, reg)
+				if tree == nil {
+					rec.Class("no_array_in_region")
+					return
+				}
+				judge(fail, b, mutation{"append-inside", reg, d, tree.Encode()})
+			case 5, 6: // head form of a node in a drawn region
+				reg := b.Names[rapid.IntRange(0, len(b.Names)-1).Draw(rt, "region")]
+				d, tree := restyleIn(rt, b.Tree, b.Regs, reg)
+				if tree == nil {
+					rec.Class("no_restylable_node_in_region")
+					return
+				}
+				judge(fail, b, mutation{"restyle", reg, d, tree.Encode()})
+			default:
+				fam, reg, d, tree := genStructural(rt, b.Type, b.Tree)
+				if tree == nil {
+					rec.Class("no_structural_edit_applicable")
+					return
+				}
+				judge(fail, b, mutation{fam, reg, d, tree.Encode()})
+			}
+		}()
+		again()
 	})
 }
